@@ -229,7 +229,7 @@ def run(ctx):
     # classes of scenarios that already failed in the replay are left out (they would be rejected for the same reason;
     # which of them a seed hits would make the keys depend on the seed)
     failed = set(key.split("]:")[0] + "]" for key in found if "]:" in key)
-    for _ in range(2500 if ctx.thorough else 400):
+    for _ in range(6000 if ctx.thorough else 400):
         sc = rt.rand_scenario(rnd)
         if rt.label(sc) in failed:
             continue
@@ -270,7 +270,7 @@ def run(ctx):
         rule="S2C: every scenario of the bounded RootIO model (ReadROOTFile: flows of <= 2 (3) files out of three with "
              "cycles / empty file x keys argument x raise_on_missing x contexts; ReadROOTTree: three trees x nine leaf "
              "lists x contexts; WriteROOTTree: four file forms x creation options x named / combined / single values x "
-             "flows of <= 2 (3) values x four faults) executed on the real elements against the stand-in ROOT, yielded "
+             "flows of <= 2 (4) values x four faults) executed on the real elements against the stand-in ROOT, yielded "
              "values and the projected call log compared; the helper tables; C2S: seeded random scenarios validated by "
              "Trace_RootIO (Expected and LogOk on the recorded call log)",
         exhaustive=True)
